@@ -49,6 +49,11 @@ CompressClauses(ln) ==
 ReturnClauses(ln, z, nd) ==
   << <<"Returns", ln.exc = "" \/ Degenerate(ln)>>,
      <<"ExactWhenUntruncated", (ln.exc = "" /\ Untruncated(ln, nd)) => (ln.ongrid /\ Close(ln.result, z))>>,
+     \* contraction around a region: the region's tensors are untouched and every listed side reached it
+     \* (under truncation compress_late=False also compresses the bonds between the boundary and the region)
+     <<"TargetUntouched", (ln.exc = "" /\ Has(ln, "hug")) =>
+                             (NotPastRegion(ln.hug.pos, ln.hug.t, ln.hug.nst) /\ (Untruncated(ln, nd) => ln.target_intact))>>,
+     <<"AroundHugs", (ln.exc = "" /\ Has(ln, "hug")) => HugsRegion(ln.hug.sides, ln.hug.pos, ln.hug.t, 1)>>,
      \* implementation-shaped model (C12_Approx / C12_Tree) against the observation: drift is a NOTE
      <<"NOTE:ModelSteps", (ln.exc = "" /\ Has(ln, "model_steps")) => ln.steps = ln.model_steps>>,
      <<"NOTE:ModelNeed", (ln.exc = "" /\ Has(ln, "model_need")) => nd = ln.model_need>> >>
